@@ -5,6 +5,7 @@ package main
 
 import (
 	"bytes"
+	"context"
 	"crypto/ed25519"
 	"crypto/sha512"
 	"fmt"
@@ -13,6 +14,7 @@ import (
 	"os/exec"
 	"path/filepath"
 	"strings"
+	"time"
 
 	"go.dedis.ch/kyber/v4"
 	"go.dedis.ch/kyber/v4/group/edwards25519"
@@ -559,8 +561,13 @@ func variants(o vh.Opts, rep *vh.Report) {
 		if out, err := exec.Command("go", args...).CombinedOutput(); err != nil {
 			return nil, "build failed: " + string(out)
 		}
-		out, err := exec.Command(bin, fmt.Sprint(o.Seed), n).Output()
+		ctx, cancel := context.WithTimeout(context.Background(), 10*time.Minute)
+		defer cancel()
+		out, err := exec.CommandContext(ctx, bin, fmt.Sprint(o.Seed), n).Output()
 		if err != nil {
+			if ctx.Err() != nil {
+				rep.Fail("C18/variant/"+tags+"/hang", "the transcript program did not terminate within 10 minutes under this build", map[string]string{"tags": tags})
+			}
 			return nil, "run failed: " + err.Error()
 		}
 		m := map[string]string{}
